@@ -534,7 +534,7 @@ func nativeReplay(path string) (bool, string) {
 		return false, err.Error()
 	}
 	dir := filepath.Join(repoDir, u.ModDir, u.PkgDir)
-	testSrc := fmt.Sprintf("//go:build verif\n\npackage %s\n\nimport \"testing\"\n\nfunc TestZZReplay(t *testing.T) {\n\tdefer func() {\n\t\tif r := recover(); r != nil {\n\t\t\tif _, ok := r.(zzAssumeFailed); ok {\n\t\t\t\treturn\n\t\t\t}\n\t\t\tpanic(r)\n\t\t}\n\t}()\n\t%s()\n\tif len(zzViolations) > 0 {\n\t\tt.Fail()\n\t}\n}\n", u.PkgName, rf.Harness)
+	testSrc := fmt.Sprintf("//go:build verif\n\npackage %s\n\nimport \"testing\"\n\nfunc TestZZReplay(t *testing.T) {\n\tzzOcc = map[string]int{}\n\tzzViolations = nil\n\tdefer func() {\n\t\tif r := recover(); r != nil {\n\t\t\tif _, ok := r.(zzAssumeFailed); ok {\n\t\t\t\treturn\n\t\t\t}\n\t\t\tpanic(r)\n\t\t}\n\t}()\n\t%s()\n\tif len(zzViolations) > 0 {\n\t\tt.Fail()\n\t}\n}\n", u.PkgName, rf.Harness)
 	testPath := filepath.Join(tmp, "zz_verif_replay_test.go")
 	os.WriteFile(testPath, []byte(testSrc), 0o644)
 	ov[filepath.Join(dir, "zz_verif_replay_test.go")] = testPath
@@ -545,7 +545,7 @@ func nativeReplay(path string) (bool, string) {
 	if to == 0 {
 		to = 120
 	}
-	cmd := exec.Command("go", "test", "-tags", "verif", "-mod=mod", "-vet=off", "-count=1", "-overlay", ovPath,
+	cmd := exec.Command("go", "test", "-tags", "verif", "-mod=mod", "-vet=off", "-count=8", "-overlay", ovPath,
 		"-run", "^TestZZReplay$", "-timeout", fmt.Sprintf("%ds", to), "./"+u.PkgDir)
 	if u.PkgDir == "" || u.PkgDir == "." {
 		cmd.Args[len(cmd.Args)-1] = "."
